@@ -16,11 +16,11 @@ Definition ch_known_sites : list string := [].
 (* _clientGetServerHello, ServerHello checks: none known *)
 Definition sh_known_sites : list string := [].
 
-(* _serverGetClientHello, key_share checks of the SECOND ClientHello after a HelloRetryRequest:
-   `if not ext:` only tests presence; a key_share extension with an EMPTY BODY parses to
-   client_shares = None and `len(ext.client_shares)` raises TypeError (tlsconnection.py ~4402);
-   proposed fix C08-17 *)
-Definition hrr_ch_known_sites : list string := [ "len:ext.client_shares#1" ].
+(* _serverGetClientHello, key_share checks of the SECOND ClientHello after a HelloRetryRequest.
+   Before /repo 79180d8 (proposed fix C08-17) this list was [ "len:ext.client_shares#1" ]: a
+   key_share extension with an EMPTY BODY parses to client_shares = None and `len(None)` raised
+   TypeError.  Not reachable any more. *)
+Definition hrr_ch_known_sites : list string := [].
 
 (* _clientGetServerHello, handling of a HelloRetryRequest: none known *)
 Definition hrr_sh_known_sites : list string := [].
